@@ -409,6 +409,12 @@ func describeOperand(v ssa.Value) string {
 			}
 			return ""
 		}
+		// an atomic load of a field is a read of that field
+		if f := o.Common().StaticCallee(); f != nil && f.Pkg != nil && f.Pkg.Pkg.Path() == "sync/atomic" && strings.HasPrefix(f.Name(), "Load") && len(o.Common().Args) == 1 {
+			if p := ir.PathOf(o.Common().Args[0]); len(p.Fields) > 0 {
+				return p.Class()
+			}
+		}
 		return calleeShort(o.Common())
 	case *ssa.UnOp:
 		if o.Op == token.MUL {
